@@ -3,6 +3,8 @@
 pub mod common;
 pub mod server_rig;
 pub mod wire;
+pub mod endpoints;
+pub mod c07_limits;
 pub mod c01_single;
 pub mod c02_batch;
 pub mod c19_http_gate;
